@@ -162,6 +162,7 @@ async fn run(input: RunInput, mode: Mode) -> RunOutput {
 
     let mut r = w.rng("wl:ops");
     let mut interesting = false;
+    let mut crashed = false;
     let mut disconnect_checks = 0u64;
     let mut op_log = Vec::new();
     // active network faults (to heal later)
@@ -212,7 +213,9 @@ async fn run(input: RunInput, mode: Mode) -> RunOutput {
             // (without keep-alive a registered connection may already be dead on the remote side -
             // idle timeouts fire at different instants on the two ends - and the tie-break may
             // legitimately keep it over the fresh one, so this is only judged with keep-alive)
-            if res.is_ok() && !faulty && ka_ms.is_some() && mode == Mode::C04 {
+            // ... and only while no node has crashed: after a crash the peers hold connections to
+            // the dead incarnation until they notice, and the tie-break may keep such a one
+            if res.is_ok() && !faulty && !crashed && ka_ms.is_some() && mode == Mode::C04 {
                 // after a (re-)dial the peer is listed and the registered connection serves RPCs
                 let listed = slots[i].node.net.peers().contains(&ids[j]);
                 w.check(listed, "peer-not-listed-after-dial", format!("re={already}"), || format!("n{i} dialed n{j} successfully but does not list it"));
@@ -256,8 +259,15 @@ async fn run(input: RunInput, mode: Mode) -> RunOutput {
                 }
             }
         } else if kind < 63 {
-            // restart with the same identity and address
+            // restart with the same identity and address; half of them after a *crash*: the node is
+            // cut off from everybody first, so no peer hears a close, and the new incarnation
+            // answers their stale connections (stateless resets keyed by the private key)
             interesting = true;
+            let crash = r.gen_bool(0.5);
+            if crash {
+                crashed = true;
+                w.fabric.isolate(addrs[i]);
+            }
             let t0 = w.now_ns();
             let sd = tokio::time::timeout(Duration::from_secs(30), slots[i].node.net.shutdown()).await;
             if !matches!(sd, Ok(Ok(()))) {
@@ -282,7 +292,22 @@ async fn run(input: RunInput, mode: Mode) -> RunOutput {
                     break;
                 }
             }
-            desc = format!("restart n{i}");
+            if crash {
+                for k in 0..n {
+                    if k != i {
+                        w.fabric.heal(addrs[i], addrs[k]);
+                    }
+                }
+                // (partitions scheduled by earlier operations and not yet healed are re-applied)
+                for (_, a, b, kind) in &healing {
+                    match kind {
+                        0 => w.fabric.partition(addrs[*a], addrs[*b]),
+                        1 => w.fabric.block(addrs[*a], addrs[*b]),
+                        _ => {}
+                    }
+                }
+            }
+            desc = format!("{} n{i}", if crash { "crash-restart" } else { "restart" });
         } else if kind < 78 && faulty {
             interesting = true;
             let dur = if r.gen_bool(0.4) { idle_ms + ka_ms.unwrap_or(0) + r.gen_range(200..3000) } else { r.gen_range(50..idle_ms / 2) };
